@@ -45,7 +45,7 @@ fn do_refresh<C: Suite>(ctx: &mut Ctx, grp: &Grp<C>, rem: &[Identifier<C>], proc
     let mut kps = BTreeMap::new();
     let pkp;
     if proc_ == "dealer-refresh" {
-        let (shares, newp) = match refresh::compute_refreshing_shares::<C, _>(grp.pkp.clone(), rem, rng) {
+        let (shares, newp) = match C::api_compute_refreshing_shares(grp.pkp.clone(), rem, rng) {
             Ok(x) => x,
             Err(e) => {
                 ctx.viol("valid-refresh-refused", "dealer/compute", json!({"n": grp.n, "t": t, "remaining": rem.len(), "err": format!("{e:?}")}));
@@ -60,7 +60,7 @@ fn do_refresh<C: Suite>(ctx: &mut Ctx, grp: &Grp<C>, rem: &[Identifier<C>], proc
             if sh.identifier() != id {
                 ctx.viol("refresh-output-inconsistent", "dealer/share-order", json!({}));
             }
-            match refresh::refresh_share::<C>(sh, &grp.kps[id]) {
+            match C::api_refresh_share(sh, &grp.kps[id]) {
                 Ok(kp) => {
                     kps.insert(*id, kp);
                 }
@@ -76,7 +76,7 @@ fn do_refresh<C: Suite>(ctx: &mut Ctx, grp: &Grp<C>, rem: &[Identifier<C>], proc
         let mut sec1 = BTreeMap::new();
         let mut p1 = BTreeMap::new();
         for id in rem {
-            match refresh::refresh_dkg_part1::<C, _>(*id, m, t, &mut *rng) {
+            match C::api_refresh_dkg_part1(*id, m, t, &mut *rng) {
                 Ok((s, p)) => {
                     sec1.insert(*id, s);
                     p1.insert(*id, p);
@@ -92,7 +92,7 @@ fn do_refresh<C: Suite>(ctx: &mut Ctx, grp: &Grp<C>, rem: &[Identifier<C>], proc
         for id in rem {
             let mut inbox = p1.clone();
             inbox.remove(id);
-            match refresh::refresh_dkg_part2::<C>(sec1[id].clone(), &inbox) {
+            match C::api_refresh_dkg_part2(sec1[id].clone(), &inbox) {
                 Ok((s, p)) => {
                     sec2.insert(*id, s);
                     p2.insert(*id, p);
@@ -108,7 +108,7 @@ fn do_refresh<C: Suite>(ctx: &mut Ctx, grp: &Grp<C>, rem: &[Identifier<C>], proc
             let mut r1 = p1.clone();
             r1.remove(id);
             let r2: IdMap<C, round2::Package<C>> = rem.iter().filter(|j| *j != id).map(|j| (*j, p2[j][id].clone())).collect();
-            match refresh::refresh_dkg_shares::<C>(&sec2[id], &r1, &r2, grp.pkp.clone(), grp.kps[id].clone()) {
+            match C::api_refresh_dkg_shares(&sec2[id], &r1, &r2, grp.pkp.clone(), grp.kps[id].clone()) {
                 Ok((kp, pk)) => {
                     kps.insert(*id, kp);
                     pkps.push(pk);
@@ -283,14 +283,14 @@ fn mixed_attempt<C: Suite>(ctx: &mut Ctx, kps: &[KeyPackage<C>], pkps: &[&Public
     let mut nonces = BTreeMap::new();
     let mut comms = BTreeMap::new();
     for kp in kps {
-        let (nn, cc) = frost_core::round1::commit::<C, _>(kp.signing_share(), rng);
+        let (nn, cc) = C::api_commit(kp.signing_share(), rng);
         nonces.insert(*kp.identifier(), nn);
         comms.insert(*kp.identifier(), cc);
     }
     let pkg = SigningPackage::new(comms, msg);
     let mut shares = BTreeMap::new();
     for kp in kps {
-        match frost_core::round2::sign(&pkg, &nonces[kp.identifier()], kp) {
+        match C::api_sign(&pkg, &nonces[kp.identifier()], kp) {
             Ok(s) => {
                 shares.insert(*kp.identifier(), s);
             }
@@ -347,8 +347,8 @@ fn rejected<C: Suite>(ctx: &mut Ctx, g0: &Grp<C>, rem: &[Identifier<C>], outside
                 continue;
             }
             let lying = PublicKeyPackage::new(g0.pkp.verifying_shares().clone(), *g0.pkp.verifying_key(), Some(t2));
-            if let Ok((shares, _)) = refresh::compute_refreshing_shares::<C, _>(lying, rem, rng) {
-                match refresh::refresh_share::<C>(shares[0].clone(), &g0.kps[&rem[0]]) {
+            if let Ok((shares, _)) = C::api_compute_refreshing_shares(lying, rem, rng) {
+                match C::api_refresh_share(shares[0].clone(), &g0.kps[&rem[0]]) {
                     Err(e) => ctx.count(&format!("rejected/threshold-change/{}", err_name(&e))),
                     Ok(_) => ctx.viol("bad-refresh-accepted", "dealer/threshold-change", d(&format!("refreshing share with threshold {t2} accepted"))),
                 }
@@ -358,7 +358,7 @@ fn rejected<C: Suite>(ctx: &mut Ctx, g0: &Grp<C>, rem: &[Identifier<C>], outside
         // (ii) an unknown participant
         let mut with_out = rem.to_vec();
         with_out.push(outsider);
-        match refresh::compute_refreshing_shares::<C, _>(g0.pkp.clone(), &with_out, rng) {
+        match C::api_compute_refreshing_shares(g0.pkp.clone(), &with_out, rng) {
             Err(e) => ctx.count(&format!("rejected/unknown-participant/{}", err_name(&e))),
             Ok(_) => ctx.viol("bad-refresh-accepted", "dealer/unknown-participant", d("compute_refreshing_shares accepted an identifier that is not in the group")),
         }
@@ -366,7 +366,7 @@ fn rejected<C: Suite>(ctx: &mut Ctx, g0: &Grp<C>, rem: &[Identifier<C>], outside
         // too few remaining participants
         if (t as usize) > 2 || rem.len() > 1 {
             let few = &rem[..(t as usize - 1).max(1)];
-            match refresh::compute_refreshing_shares::<C, _>(g0.pkp.clone(), few, rng) {
+            match C::api_compute_refreshing_shares(g0.pkp.clone(), few, rng) {
                 Err(e) => ctx.count(&format!("rejected/too-few/{}", err_name(&e))),
                 Ok(_) => ctx.viol("bad-refresh-accepted", "dealer/too-few-remaining", d("refresh for fewer than t participants accepted")),
             }
@@ -374,26 +374,26 @@ fn rejected<C: Suite>(ctx: &mut Ctx, g0: &Grp<C>, rem: &[Identifier<C>], outside
         // (iii) a refreshing share whose polynomial has a non-zero constant term:
         // shares of an ordinary split of a non-zero key with the first commitment entry stripped
         let key = SigningKey::<C>::new(&mut *rng);
-        if let Ok((shares, _)) = frost_core::keys::split(&key, m, t, IdentifierList::Custom(rem), &mut *rng) {
+        if let Ok((shares, _)) = C::api_split(&key, m, t, IdentifierList::Custom(rem), &mut *rng) {
             let sh = &shares[&me];
             let stripped: Vec<_> = sh.commitment().coefficients()[1..].to_vec();
             let bad = SecretShare::<C>::new(me, *sh.signing_share(), VerifiableSecretSharingCommitment::<C>::new(stripped));
-            match refresh::refresh_share::<C>(bad, &g0.kps[&me]) {
+            match C::api_refresh_share(bad, &g0.kps[&me]) {
                 Err(e) => ctx.count(&format!("rejected/nonzero-constant/{}", err_name(&e))),
                 Ok(_) => ctx.viol("bad-refresh-accepted", "dealer/nonzero-constant-term", d("refresh_share accepted a share of a polynomial with non-zero constant term")),
             }
             ctx.class("reject/dealer/nonzero-constant-term");
             // a refreshing share for another participant / altered value
             if rem.len() >= 2 {
-                if let Ok((rs, _)) = refresh::compute_refreshing_shares::<C, _>(g0.pkp.clone(), rem, rng) {
+                if let Ok((rs, _)) = C::api_compute_refreshing_shares(g0.pkp.clone(), rem, rng) {
                     let other = &rs[1];
                     let misaddressed = SecretShare::<C>::new(me, *other.signing_share(), other.commitment().clone());
-                    match refresh::refresh_share::<C>(misaddressed, &g0.kps[&me]) {
+                    match C::api_refresh_share(misaddressed, &g0.kps[&me]) {
                         Err(e) => ctx.count(&format!("rejected/share-of-other/{}", err_name(&e))),
                         Ok(_) => ctx.viol("bad-refresh-accepted", "dealer/share-of-other-participant", d("refresh_share accepted another participant's refreshing share")),
                     }
                     let altered = SecretShare::<C>::new(me, SigningShare::<C>::new(rs[0].signing_share().to_scalar() + one::<C>()), rs[0].commitment().clone());
-                    match refresh::refresh_share::<C>(altered, &g0.kps[&me]) {
+                    match C::api_refresh_share(altered, &g0.kps[&me]) {
                         Err(e) => ctx.count(&format!("rejected/share-altered/{}", err_name(&e))),
                         Ok(_) => ctx.viol("bad-refresh-accepted", "dealer/share-altered", d("refresh_share accepted an altered refreshing share")),
                     }
@@ -409,7 +409,7 @@ fn rejected<C: Suite>(ctx: &mut Ctx, g0: &Grp<C>, rem: &[Identifier<C>], outside
         let mut sec1 = BTreeMap::new();
         let mut p1: IdMap<C, round1::Package<C>> = BTreeMap::new();
         for id in rem {
-            let Ok((s, p)) = refresh::refresh_dkg_part1::<C, _>(*id, m, t, &mut *rng) else { return };
+            let Ok((s, p)) = C::api_refresh_dkg_part1(*id, m, t, &mut *rng) else { return };
             sec1.insert(*id, s);
             p1.insert(*id, p);
         }
@@ -421,17 +421,17 @@ fn rejected<C: Suite>(ctx: &mut Ctx, g0: &Grp<C>, rem: &[Identifier<C>], outside
         let honest_r2 = |from: &Identifier<C>| -> Option<round2::Package<C>> {
             let mut ib = p1.clone();
             ib.remove(from);
-            refresh::refresh_dkg_part2::<C>(sec1[from].clone(), &ib).ok().map(|x| x.1[&me].clone())
+            C::api_refresh_dkg_part2(sec1[from].clone(), &ib).ok().map(|x| x.1[&me].clone())
         };
         // (iii) one participant contributes an ordinary DKG polynomial (a_0 != 0), first entry stripped
         let cheat = rem[1];
-        if let Ok((csec, cpkg)) = dkg::part1::<C, _>(cheat, m, t, &mut *rng) {
+        if let Ok((csec, cpkg)) = C::api_dkg_part1(cheat, m, t, &mut *rng) {
             let stripped: Vec<_> = cpkg.commitment().coefficients()[1..].to_vec();
             let bad_pkg = round1::Package::new(VerifiableSecretSharingCommitment::<C>::new(stripped), *cpkg.proof_of_knowledge());
             let mut p1b = p1.clone();
             p1b.insert(cheat, bad_pkg);
             let r1 = inbox(&p1b);
-            if let Ok((sec2, _)) = refresh::refresh_dkg_part2::<C>(sec1[&me].clone(), &r1) {
+            if let Ok((sec2, _)) = C::api_refresh_dkg_part2(sec1[&me].clone(), &r1) {
                 let mut r2 = BTreeMap::new();
                 let mut ok = true;
                 for j in rem.iter().filter(|j| **j != me) {
@@ -444,7 +444,7 @@ fn rejected<C: Suite>(ctx: &mut Ctx, g0: &Grp<C>, rem: &[Identifier<C>], outside
                     }
                 }
                 if ok {
-                    match refresh::refresh_dkg_shares::<C>(&sec2, &r1, &r2, g0.pkp.clone(), g0.kps[&me].clone()) {
+                    match C::api_refresh_dkg_shares(&sec2, &r1, &r2, g0.pkp.clone(), g0.kps[&me].clone()) {
                         Err(e) => ctx.count(&format!("rejected/nonzero-constant/{}", err_name(&e))),
                         Ok((kp, _)) => {
                             let drift = g::<C>() * kp.signing_share().to_scalar() != g0.kps[&me].verifying_share().to_element();
@@ -463,20 +463,20 @@ fn rejected<C: Suite>(ctx: &mut Ctx, g0: &Grp<C>, rem: &[Identifier<C>], outside
             let mut s1 = BTreeMap::new();
             let mut q1 = BTreeMap::new();
             for id in rem {
-                let Ok((s, p)) = refresh::refresh_dkg_part1::<C, _>(*id, m, t2, &mut *rng) else { return };
+                let Ok((s, p)) = C::api_refresh_dkg_part1(*id, m, t2, &mut *rng) else { return };
                 s1.insert(*id, s);
                 q1.insert(*id, p);
             }
             let r1 = inbox(&q1);
-            let res = refresh::refresh_dkg_part2::<C>(s1[&me].clone(), &r1).and_then(|(sec2, _)| {
+            let res = C::api_refresh_dkg_part2(s1[&me].clone(), &r1).and_then(|(sec2, _)| {
                 let mut r2 = BTreeMap::new();
                 for j in rem.iter().filter(|j| **j != me) {
                     let mut ib = q1.clone();
                     ib.remove(j);
-                    let (_, out) = refresh::refresh_dkg_part2::<C>(s1[j].clone(), &ib)?;
+                    let (_, out) = C::api_refresh_dkg_part2(s1[j].clone(), &ib)?;
                     r2.insert(*j, out[&me].clone());
                 }
-                refresh::refresh_dkg_shares::<C>(&sec2, &r1, &r2, g0.pkp.clone(), g0.kps[&me].clone())
+                C::api_refresh_dkg_shares(&sec2, &r1, &r2, g0.pkp.clone(), g0.kps[&me].clone())
             });
             match res {
                 Err(e) => ctx.count(&format!("rejected/threshold-change/{}", err_name(&e))),
@@ -486,10 +486,10 @@ fn rejected<C: Suite>(ctx: &mut Ctx, g0: &Grp<C>, rem: &[Identifier<C>], outside
         }
         // one participant alone uses another threshold
         if t + 1 <= m {
-            if let Ok((_, odd)) = refresh::refresh_dkg_part1::<C, _>(cheat, m, t + 1, &mut *rng) {
+            if let Ok((_, odd)) = C::api_refresh_dkg_part1(cheat, m, t + 1, &mut *rng) {
                 let mut p1b = p1.clone();
                 p1b.insert(cheat, odd);
-                match refresh::refresh_dkg_part2::<C>(sec1[&me].clone(), &inbox(&p1b)) {
+                match C::api_refresh_dkg_part2(sec1[&me].clone(), &inbox(&p1b)) {
                     Err(e) => ctx.count(&format!("rejected/one-threshold-differs/{}", err_name(&e))),
                     Ok(_) => ctx.viol("bad-refresh-accepted", "dkg/one-threshold-differs", d("refresh_dkg_part2 accepted a contribution of another degree")),
                 }
@@ -504,20 +504,20 @@ fn rejected<C: Suite>(ctx: &mut Ctx, g0: &Grp<C>, rem: &[Identifier<C>], outside
             let mut s1 = BTreeMap::new();
             let mut q1 = BTreeMap::new();
             for id in &ids2 {
-                let Ok((s, p)) = refresh::refresh_dkg_part1::<C, _>(*id, m2, t, &mut *rng) else { return };
+                let Ok((s, p)) = C::api_refresh_dkg_part1(*id, m2, t, &mut *rng) else { return };
                 s1.insert(*id, s);
                 q1.insert(*id, p);
             }
             let r1 = inbox(&q1);
-            let res = refresh::refresh_dkg_part2::<C>(s1[&me].clone(), &r1).and_then(|(sec2, _)| {
+            let res = C::api_refresh_dkg_part2(s1[&me].clone(), &r1).and_then(|(sec2, _)| {
                 let mut r2 = BTreeMap::new();
                 for j in ids2.iter().filter(|j| **j != me) {
                     let mut ib = q1.clone();
                     ib.remove(j);
-                    let (_, out) = refresh::refresh_dkg_part2::<C>(s1[j].clone(), &ib)?;
+                    let (_, out) = C::api_refresh_dkg_part2(s1[j].clone(), &ib)?;
                     r2.insert(*j, out[&me].clone());
                 }
-                refresh::refresh_dkg_shares::<C>(&sec2, &r1, &r2, g0.pkp.clone(), g0.kps[&me].clone())
+                C::api_refresh_dkg_shares(&sec2, &r1, &r2, g0.pkp.clone(), g0.kps[&me].clone())
             });
             match res {
                 Err(e) => ctx.count(&format!("rejected/unknown-participant/{}", err_name(&e))),
@@ -527,7 +527,7 @@ fn rejected<C: Suite>(ctx: &mut Ctx, g0: &Grp<C>, rem: &[Identifier<C>], outside
         }
         // a round-two share altered / for another recipient
         let r1 = inbox(&p1);
-        if let Ok((sec2, _)) = refresh::refresh_dkg_part2::<C>(sec1[&me].clone(), &r1) {
+        if let Ok((sec2, _)) = C::api_refresh_dkg_part2(sec1[&me].clone(), &r1) {
             let mut r2 = BTreeMap::new();
             for j in rem.iter().filter(|j| **j != me) {
                 if let Some(pk) = honest_r2(j) {
@@ -538,7 +538,7 @@ fn rejected<C: Suite>(ctx: &mut Ctx, g0: &Grp<C>, rem: &[Identifier<C>], outside
                 let victim = rem[1];
                 let mut bad = r2.clone();
                 bad.insert(victim, round2::Package::new(SigningShare::<C>::new(r2[&victim].signing_share().to_scalar() + one::<C>())));
-                match refresh::refresh_dkg_shares::<C>(&sec2, &r1, &bad, g0.pkp.clone(), g0.kps[&me].clone()) {
+                match C::api_refresh_dkg_shares(&sec2, &r1, &bad, g0.pkp.clone(), g0.kps[&me].clone()) {
                     Err(e) => ctx.count(&format!("rejected/share-altered/{}", err_name(&e))),
                     Ok(_) => ctx.viol("bad-refresh-accepted", "dkg/share-altered", d("refresh_dkg_shares accepted an altered share")),
                 }
